@@ -2,7 +2,12 @@
 
 Engine E2 (clock).  Real DigestCredentialFactory objects (directly, or through
 the twisted.web wrapper) issue challenges to clients at several addresses at
-simulated times (`_getTime` -> sim.clock, `credentials.secureRandom` -> tape).
+simulated times (`_getTime` -> sim.clock, `credentials.secureRandom` -> values
+derived from one tape entry, never repeated within a history).  One to four
+factories live side by side, for the same or for different realms; some are
+created while challenges of the earlier ones are outstanding.  A challenge
+counts as issued only for the factory that handed it out: the oracle never
+looks at a factory's key.
 The tape plays challenge / clock-advance / respond histories; a response is
 built by an independent RFC 2617 client (hashlib only) and is honest, computed
 with a wrong password, replayed from another address or to another factory,
@@ -45,8 +50,9 @@ BATCH = 25
 RUN_WALL_LIMIT_S = 60   # the machine is shared; a run itself takes about a millisecond
 COMPONENTS = {"real": ["twisted.cred.credentials.DigestCredentialFactory (getChallenge/_generateOpaque/_verifyOpaque/decode)",
                        "twisted.cred.credentials.DigestedCredentials.checkPassword", "twisted.cred._digest", "twisted.web._auth.digest.DigestCredentialFactory"],
-              "stub": ["wall clock (_getTime -> SimClock)", "secureRandom (tape bytes)", "HTTP request object (method + client address)"]}
-RULE = ("run = 1..2 factories (md5/sha, direct or via the twisted.web wrapper), 6..24 tape-chosen steps: issue a challenge to one of 3 addresses, "
+              "stub": ["wall clock (_getTime -> SimClock)", "secureRandom (values derived from a tape entry and a call counter, pairwise distinct)", "HTTP request object (method + client address)"]}
+RULE = ("run = 1..3 factories at the start (md5/sha, direct or via the twisted.web wrapper, each for one of two realms - usually the same one), up to 4 with those "
+        "created in mid-history; 6..24 tape-chosen steps: create another factory, issue a challenge to one of 3 addresses, "
         "advance the clock (seconds to twice the lifetime, or exactly to lifetime-1/lifetime/lifetime+1 of a chosen challenge), or answer a chosen challenge with a "
         "response of a drawn class (honest, legacy-no-qop, wrong password, other address, other factory, nonce tamper, opaque tamper/forgery/truncation, "
         "field drop, field value byte mutation, raw header byte mutation, algorithm/qop substitution); "
@@ -54,13 +60,18 @@ RULE = ("run = 1..2 factories (md5/sha, direct or via the twisted.web wrapper), 
 ASSUMPTIONS = ["times are whole seconds apart (the implementation truncates to int seconds; sub-second age is not judged)",
                "a response whose age equals the lifetime exactly is 'within' the lifetime",
                "an opaque whose base64 part differs textually but decodes (leniently) to the same bytes is not counted as altered",
-               "a response repeated unchanged is accepted again (the statement does not make challenges single-use)"]
+               "a response repeated unchanged is accepted again (the statement does not make challenges single-use)",
+               "'issued' is per factory: an unaltered answer to a challenge of one factory is not an issued challenge for any other factory of the process "
+               "(same or other realm, created before or after the challenge); the random source never returns the same value twice in a history, so "
+               "two factories have nothing in common unless the code under test shares it"]
 
 KNOWN = ["C48:decode-raised:binascii.Error", "C48:decode-raised:UnicodeDecodeError",
          "C48:checkPassword-raised:KeyError", "C48:checkPassword-raised:TypeError"]
 
 DEV_IGNORE = set(filter(None, os.environ.get("VERIF_C48_DEV_IGNORE", "").split(",")))
 LIFETIME = 15 * 60
+REALMS = [b"test realm", b"test realm", b"other realm"]   # two factories usually guard the same realm
+MAX_FACTORIES = 4
 USERS = [(b"alice", b"secret"), (b"bob", b"hunter2")]
 WRONG = b"not-the-password"
 ADDRS = ["10.0.0.1", "10.0.0.2", None]
@@ -112,8 +123,8 @@ class Request:
 
 
 class Issued:
-    def __init__(self, fidx, addr, nonce, opaque, when):
-        self.fidx, self.addr, self.nonce, self.opaque, self.when = fidx, addr, nonce, opaque, when
+    def __init__(self, fidx, addr, nonce, opaque, when, realm):
+        self.fidx, self.addr, self.nonce, self.opaque, self.when, self.realm = fidx, addr, nonce, opaque, when, realm
 
 
 def excname(e):
@@ -130,7 +141,24 @@ def lenient_b64(s):
 
 def run(sim):
     saved = credentials.secureRandom
-    credentials.secureRandom = lambda n, fallback=False: sim.draw_blob(n)
+    entropy = sim.draw_blob(8)
+    handed = set()
+
+    def tape_random(n, fallback=False):
+        # The k-th value handed out in a history is a function of one tape entry and k: tape-driven, but how many values the code
+        # under test asks for never shifts the rest of the tape.  Like the cryptographic source it stands in for, it never hands
+        # out the same value twice within a history (12 random bytes do not coincide in reality; an exhausted or shrunk tape would
+        # otherwise repeat itself).  So whatever two factories have in common is shared by the code under test, not by the stub.
+        b = b""
+        while len(b) < n:
+            b += hashlib.sha256(entropy + b":%d:%d" % (len(handed), len(b))).digest()
+        b = b[:n]
+        while n and b in handed:
+            b = ((int.from_bytes(b, "big") + 1) % (1 << (8 * n))).to_bytes(n, "big")
+        handed.add(b)
+        return b
+
+    credentials.secureRandom = tape_random
     try:
         _run(sim)
     finally:
@@ -140,11 +168,10 @@ def run(sim):
 def _run(sim):
     algo = sim.draw_choice([b"md5", b"sha"], "algorithm")
     via_web = sim.draw_bool(0.3, "via_web")
-    nfac = sim.draw_int(1, 2, "factories")
+    nfac = sim.draw_int(1, 3, "factories")
     nsteps = sim.draw_int(6, 24 * sim.depth, "steps")
     avoid = sim.draw_bool(0.15, "avoid_known") or bool(os.environ.get("VERIF_C48_AVOID_KNOWN"))
     start = sim.draw_int(0, 5000, "t0")
-    realm = b"test realm"
     sim.config = {"algorithm": algo.decode(), "via_web": via_web, "factories": nfac, "steps": nsteps, "avoid_known": avoid, "t0": start}
     # Clocks have sub-second resolution (time.time() does).  The implementation keeps challenge times in whole seconds, so its
     # notion of age can differ from the true age by less than one second: a response whose true age lies strictly between the
@@ -156,8 +183,14 @@ def _run(sim):
     clock.advance(start + (sim.draw_int(0, 7, "t0_eighths") / 8.0 if fractional else 0))
     addrs = [a for a in ADDRS if a is not None] if via_web else ADDRS
 
-    facs = []
-    for i in range(nfac):
+    # Several independent factories live side by side (several sites / guarded resources of one process, for the same or for
+    # different realms) and more are created while challenges of the earlier ones are outstanding (the factory that replaces
+    # another after a reconfiguration).  Each has its own ledger entries: a challenge counts as issued only for the factory
+    # that handed it out.
+    facs, realms, born = [], [], []
+
+    def new_factory():
+        realm = sim.draw_choice(REALMS, "realm")
         if via_web:
             from twisted.web._auth import digest as webdigest
             w = webdigest.DigestCredentialFactory(algo, realm)
@@ -167,13 +200,14 @@ def _run(sim):
             f = credentials.DigestCredentialFactory(algo, realm)
             f._getTime = clock.seconds
             facs.append(f)
-
-    def inner(f):
-        return f.digest if via_web else f
-
-    distinct_keys = nfac == 1 or inner(facs[0]).privateKey != inner(facs[1]).privateKey
+        realms.append(realm)
+        born.append(len(issued))
+        sim.event("factory", len(facs) - 1, realm)
 
     issued = []
+    for i in range(nfac):
+        new_factory()
+    sim.config["realms"] = [r.decode() for r in realms]
     st = {"accepted": 0, "rejected": 0, "mutated": 0}
 
     def get_challenge(fidx, addr):
@@ -264,7 +298,7 @@ def _run(sim):
                 sim.check("accepted-is-justified", accepted == [used_pw], "other-password", "accepted for %r, the client used %r; header=%r" % (accepted, used_pw, header))
                 a = f.get("algorithm", b"md5").lower()
                 if f.get("qop") == b"auth" and f.get("nc") and f.get("cnonce") and f.get("uri") is not None and a in (b"md5", b"sha", b"md5-sess"):
-                    want = client_response(b"md5" if a == b"md5-sess" else a, creds.username, realm, accepted[0], method, f["uri"], nonce, f["nc"], f["cnonce"], b"auth",
+                    want = client_response(b"md5" if a == b"md5-sess" else a, creds.username, realms[fidx], accepted[0], method, f["uri"], nonce, f["nc"], f["cnonce"], b"auth",
                                            sess=(a == b"md5-sess"))
                     sim.check("accepted-is-justified", f.get("response") == want, "response-hash",
                               "accepted although response=%r is not the RFC 2617 digest %r; header=%r" % (f.get("response"), want, header))
@@ -305,10 +339,12 @@ def _run(sim):
         quote_all = sim.draw_bool(0.3, "quote_all")
         sep = sim.draw_choice([b", ", b",", b",\r\n  "], "sep")
         tame = [("honest", 6), ("md5-sess", 2 if (algo == b"md5" and not legacy) else 0), ("wrong-password", 2), ("other-address", 2), ("expired-check", 0), ("nonce-post", 1), ("nonce-pre", 1),
-                ("opaque-digest", 1), ("opaque-key", 1), ("opaque-forged-time", 1), ("opaque-forged-addr", 1), ("other-factory", 1 if (nfac > 1 and distinct_keys) else 0),
+                ("opaque-digest", 1), ("opaque-key", 1), ("opaque-forged-time", 1), ("opaque-forged-addr", 1), ("other-factory", 2 if len(facs) > 1 else 0),
                 ("opaque-shape", 1), ("drop-tame", 1), ("value-tame", 2)]
         wild = [("opaque-truncate", 2), ("opaque-garbage", 1), ("drop-any", 2), ("value-wild", 2), ("raw-wild", 2), ("algorithm", 1), ("qop", 1), ("truncate-header", 1)]
         kind = sim.draw_weighted(tame + ([] if avoid else wild), "class")
+
+        realm = c.realm      # the client answers with the realm named in the challenge it got
 
         def build(pw, nonce, opaque, algorithm=algo):
             f = {"username": user, "realm": realm, "nonce": nonce, "uri": uri, "opaque": opaque, "algorithm": algorithm}
@@ -349,8 +385,13 @@ def _run(sim):
             addr = sim.draw_choice(others, "addr")
             expect = "invalid"
         elif kind == "other-factory":
-            fidx = 1 - c.fidx
+            # an unaltered, fresh, honest answer - presented to a factory that never issued this challenge
+            fidx = sim.draw_choice([i for i in range(len(facs)) if i != c.fidx], "target")
             expect = "invalid"
+            sim.fault("response_presented_to_other_factory")
+            sim.probe("other_factory_same_realm" if realms[fidx] == realms[c.fidx] else "other_factory_other_realm")
+            if born[fidx] > issued.index(c):
+                sim.probe("other_factory_created_after_the_challenge")
         elif kind in ("nonce-post", "nonce-pre"):
             n2 = swap_char(c.nonce, sim.draw_int(0, len(c.nonce) - 1, "pos"), HEX)
             if kind == "nonce-pre":
@@ -438,16 +479,21 @@ def _run(sim):
 
     for _ in range(nsteps):
         sim.step(200 * sim.depth)
-        ops = [("challenge", 4 if len(issued) < 10 else 0), ("respond", 12 if issued else 0), ("advance", 2), ("to-boundary", 2 if issued else 0)]
+        ops = [("challenge", 4 if len(issued) < 10 else 0), ("respond", 12 if issued else 0), ("advance", 2), ("to-boundary", 2 if issued else 0),
+               ("new-factory", 1 if (issued and len(facs) < MAX_FACTORIES) else 0)]
         op = sim.draw_weighted(ops, "op")
         if op == "challenge":
-            fidx = sim.draw_int(0, nfac - 1, "factory")
+            fidx = sim.draw_int(0, len(facs) - 1, "factory")
             addr = sim.draw_choice(addrs, "addr")
             ch = get_challenge(fidx, addr)
-            sim.check("challenge-shape", isinstance(ch.get("nonce"), bytes) and isinstance(ch.get("opaque"), bytes) and ch.get("opaque").count(b"-") == 1,
+            sim.check("challenge-shape", isinstance(ch.get("nonce"), bytes) and isinstance(ch.get("opaque"), bytes) and ch.get("opaque").count(b"-") == 1
+                      and isinstance(ch.get("realm"), bytes),
                       "fields", "challenge %r" % (ch,))
-            issued.append(Issued(fidx, addr, ch["nonce"], ch["opaque"], clock.seconds()))
+            issued.append(Issued(fidx, addr, ch["nonce"], ch["opaque"], clock.seconds(), ch["realm"]))
             sim.event("challenge", fidx, addr or "-", now_int(), ch["nonce"], ch["opaque"])
+        elif op == "new-factory":
+            new_factory()
+            sim.probe("factory_created_mid_history")
         elif op == "advance":
             dt = sim.draw_choice([1, 10, 60, 450, 2, 899, 300, 900, 30, 901, 1800], "dt")
             if fractional:
@@ -487,5 +533,9 @@ MUTANTS = [
     'credentials.py opaque digest computed without the private key (both places): CAUGHT invalid-rejected:other-factory',
     '_digest.py calcResponse: nonce count left out of the hash: CAUGHT valid-accepted',
     "credentials.py _verifyOpaque: 'len(opaqueParts) != 2' -> '< 2': CAUGHT invalid-rejected:opaque-shape",
+    "credentials.py __init__: opaque key drawn once per process (class attribute) instead of per factory: CAUGHT invalid-rejected:other-factory "
+    "(before: the other-factory class was only enabled when the two factories' privateKey attributes differed, i.e. the oracle trusted the implementation's keys)",
+    "credentials.py __init__: 'self.privateKey = secureRandom(12)' -> key derived from the realm (md5(authenticationRealm)): CAUGHT invalid-rejected:other-factory",
+    "credentials.py __init__: authenticationRealm stored on the class (the last factory's realm wins): CAUGHT valid-accepted:honest / accepted-is-justified:response-hash",
     'candidate fix (catch ValueError from b64decode, UnicodeError from nativeString -> LoginFailed; checkPassword returns False for unknown algorithm / missing uri / auth-int / md5-sess without cnonce): full check PASSES without the avoid knob',
 ]
